@@ -14,7 +14,7 @@ type pair[K, V any] struct {
 }
 
 func NewIntegerIter(n int) Iterator[pair[int, any]] {
-	return &integerIter{n: n}
+	return &integerIter{n: n, i: -1}
 }
 
 func NewStringIter(str string) Iterator[pair[int, rune]] {
@@ -42,7 +42,7 @@ type integerIter struct {
 
 func (i *integerIter) MoveNext() bool {
 	i.i++
-	return i.i <= i.n
+	return i.i < i.n
 }
 
 func (i *integerIter) Current() pair[int, any] {
